@@ -88,8 +88,8 @@ CHECKS["C08"] = dict(
 CHECKS["C12"] = dict(
   category="exploration",
   technique="rapid model-based generation with reference attribute computation (nearest explicit config / output; instantiating module) over the expanded model, compared on every node",
-  text="Schemas with explicit config at random depths (valid combinations only), uses across modules and submodules, augments into config-false subtrees/choices/rpc input and output, submodule content and operations; for every node of every module tree ReadOnly(), Namespace().Name and InstantiatingModule() must equal the reference. Sampling over an unbounded space with class counters for explicit config, copied nodes, submodule content and rpc output.",
-  note="Trusts yref. Attributes of implicit case nodes are not judged; config below operations is not generated.",
+  text="Schemas with explicit config at random depths (valid combinations only), uses across modules and submodules, augments into config-false subtrees/choices/rpc input and output and at or below the implicit cases of leaf members, submodule content and operations; for every node of every module tree ReadOnly(), Namespace().Name and InstantiatingModule() must equal the reference. Sampling over an unbounded space with class counters for explicit config, copied nodes, submodule content and rpc output.",
+  note="Trusts yref. The namespace of implicit case nodes is not judged (config and read-only are); the implicit case of a container or list member is not used as an augment target; config below operations is not generated.",
   design="DESIGN.md section 4, C12")
 
 CHECKS["C11"] = dict(
@@ -109,26 +109,26 @@ CHECKS["C18"] = dict(
   category="exploration",
   technique="rapid-generated operation histories (stateful model-based testing) against a batch-run reference: after every process the result must equal a fresh module set loaded with exactly the accepted texts",
   text="Histories of load(good), load(bad: syntax error, module or submodule rejected after an inner typedef was built, duplicate), process and read operations over one Modules are generated with a pool of mutually consistent texts loaded in random order (imports/includes often missing at first). The model is the list of accepted texts; after every process the error list and the complete dump (all module and submodule trees with types, attributes, identity lists) must equal those of a fresh set with the same texts processed once, consecutive runs must agree and every bad load must return an error. Histories whose batch run itself crashes are left to C01.",
-  note="Trusts only equality of two runs of the code under test (metamorphic/differential oracle) and the canonical dump. Multi-module texts and revisions are not used; reads respect the documented 'Process first' precondition.",
+  note="Trusts only equality of two runs of the code under test (metamorphic/differential oracle) and the canonical dump. Multi-module texts are not used; revisions appear in a dedicated family of 2-3 revisions with importers of many shapes; reads respect the documented 'Process first' precondition.",
   design="DESIGN.md section 4, C18")
 
 CHECKS["C13"] = dict(
   category="exploration",
-  technique="three rapid generators with reference models: module headers x all load permutations (revision binding), generated directory layouts in temporary directories (file chooser model), and a metamorphic split of a module into submodules that must not change the result",
-  text="(a) 1-5 module headers over two names and four dates with importers are loaded in every permutation (<= 24; 12 sampled for five texts): acceptance per (name, latest revision), the bare key, dated keys and import bindings must follow the model in every order. (b) Up to seven candidate and near-miss files in 1-3 search-path directories, each declaring the wanted module with a namespace that names its own path, fetched by Read, import and dated import: the chosen file must be the model's (first directory with a candidate, exact name else latest date, never a near miss, failure when none). (c) A generated module and a random partition of its body into 1-3 submodules with the includes its references need (mutual includes with the ignore-circular option): tree, types, attributes and identity lists must equal those of the unsplit module.",
+  technique="five rapid generators with reference models: module headers x all load permutations (revision binding), generated directory layouts in temporary directories (file chooser model), revisions partly loaded and partly on the search path with dated and undated importers (binding invariants), revisions of a module over revisions of a submodule, and a metamorphic split of a module into submodules that must not change the result",
+  text="(a) 1-5 module headers over two names and four dates with importers are loaded in every permutation (<= 24; 12 sampled for five texts): acceptance per (name, latest revision), the bare key, dated keys and import bindings must follow the model in every order. (b) Up to seven candidate and near-miss files in 1-3 search-path directories, each declaring the wanted module with a namespace that names its own path, fetched by Read, import and dated import: the chosen file must be the model's (first directory with a candidate, exact name else latest date, never a near miss, failure when none). (e) Revisions of one module partly loaded, partly waiting as files on the search path, with 1-3 dated and undated importers in three load orders: after one Process the bare name and undated imports denote the latest revision held, dated imports their revision when held, and each importer sees one revision. (d) 1-3 revisions of a module each including a submodule by name or by date, 1-2 submodule texts, nested includes: every revision holds exactly what its includes denote. (c) A generated module and a random partition of its body into 1-3 submodules with the includes its references need (mutual includes with the ignore-circular option): tree, types, attributes and identity lists must equal those of the unsplit module.",
   note="Trusts the small reference models in the check and canon's dump. Recursive dir/... search order and belongs-to prefixes differing from the module prefix are not generated; temporary directories live under the system temp dir and are removed per case.",
   design="DESIGN.md section 4, C13")
 CHECKS["C19"] = dict(
   category="exploration",
   technique="stress under the Go race detector with rapid-generated module sets and query scripts, each case in a child process so that a race report is attributed; results compared with a sequential run (differential)",
-  text="Each case runs in a child process of the -race test binary with GOMAXPROCS=8: either 8-16 barrier-released goroutines each running the full load-process-dump pipeline on its own generated module set (3 rounds), or 8-16 readers issuing the same 60 generated read-only queries in individually shuffled orders against one freshly processed set, the first query of each being a first-time instantiating-module lookup (4 rounds). Any race report on the child's output, any panic and any result that differs from the sequential run of the same work is a violation. The family does not own the scheduler: what is decided is the absence of unsynchronised conflicting accesses on the exercised paths and of result-changing interference during the stress, not all interleavings.",
+  text="Each case runs in a child process of the -race test binary with GOMAXPROCS=8: either 8-16 barrier-released goroutines each running the full load-process-dump pipeline on its own generated module set (3 rounds), or 8-16 readers issuing the same 60 generated read-only queries (path lookups start at module roots and at inner nodes, including nodes written in submodules) in individually shuffled orders against one freshly processed set, the first query of each being a first-time instantiating-module lookup (4 rounds). Any race report on the child's output, any panic and any result that differs from the sequential run of the same work is a violation. The family does not own the scheduler: what is decided is the absence of unsynchronised conflicting accesses on the exercised paths and of result-changing interference during the stress, not all interleavings.",
   note="Trusts the Go race detector. Queries never name unwritten rpc input/output nor unresolvable prefixes (those lookups write by design).",
   design="DESIGN.md section 4, C19")
 
 CHECKS["C05"] = dict(
   category="exploration",
   technique="metamorphic testing: rapid-generated module sets with ties, conflicts and planted faults are run repeatedly and in permuted load orders in fresh module sets (and through the goyang command), all results must be identical; invariant check on every returned error list",
-  text="Module sets biased toward ties and conflicts (equal identity names under one base, several deviate statements, two deviating modules, chained augments, 1-3 planted faults spread over files) are loaded in every permutation (<= 3 sources) or model order plus 7 random orders, 4 times each in fresh module sets inside one process; load errors, the Process() error strings in order and the complete canonical dump must be identical in all runs, error lists ordered by file/line/column without duplicates. A twelfth of the cases also run the goyang binary built from the working tree 6 times per format (tree, types) with two argument orders and compare exit status, stdout and stderr byte for byte.",
+  text="Module sets biased toward ties and conflicts (equal identity names under one base, several deviate statements, two deviating modules, chained augments, 1-3 planted faults spread over files, mirror-image modules handed over under one source name) are loaded in every permutation (<= 3 sources) or model order plus 7 random orders, 4 times each in fresh module sets inside one process; load errors, the Process() error strings in order and the complete canonical dump must be identical in all runs, error lists ordered by file/line/column without duplicates. A twelfth of the cases also run the goyang binary built from the working tree 6 times per format (tree, types) with two argument orders and compare exit status, stdout and stderr byte for byte.",
   note="No reference model: the oracle is equality between runs of the code under test. Order dependence is observed only if the Go runtime iterates a map differently in one of the 24-32 runs of a case (about 1/8 per range for a two-entry map with Go 1.23), so a single tie can stay unseen in one case with probability of a few percent; features recur over hundreds of cases.",
   design="DESIGN.md section 4, C05")
 
